@@ -231,7 +231,7 @@ func TestProp(t *testing.T) {
 		}
 	}
 	r.Rule("rapid: checksum type {12,15,16,19,20,-138} x data length 0..200 x usage set x random key; variant from {value equality with the reference, correct verification, proper prefix, one-byte extension, bit flip, other data, other key, a key of another length (0..64 octets) with the right-key checksum / the empty string / nil presented, other usage (rc4 aliases skipped)}; every case compares against the independent value, distinct by (type,len,usage,variant,arg)")
-	r.Rapid("cksum", r.N(8000, 40000), func(t *rapid.T) {
+	r.Rapid("cksum", r.N(8000, 200000), func(t *rapid.T) {
 		ck := rapid.SampledFrom(ref.CksumTypes).Draw(t, "cksumtype")
 		et := ref.ETypeForCksum(ck)
 		c := Case{Ck: ck, Usage: kgen.Usage(t)}
